@@ -378,9 +378,8 @@ Print Assumptions C02_transpose_add_forest_pass_sound.
         no / empty axes = all axes).  First statement: the arithmetic of the pass (normalise against len(perm1), map through
         perm1, sort) is exactly that law's instance, for every rank, perm, axes list (attribute or constant input, also
         absent / empty).  Second and third: one rewrite, and the whole pass, for every graph admissible when the pass starts;
-        the initializer the pass creates for the input form of the axes is a value added to the environment ([env_ext]: the
-        final environment differs from the given one only where the rewritten graph's constant annotation says what the
-        value is). *)
+        for the input form of the axes the pass inserts a Constant node holding the re-mapped axes in front of the reducer
+        (hypothesis [sem_constant_spec]: such a node evaluates to that integer vector). *)
 From J2O Require Import TransposeReducePass TransposeReduceSound.
 Theorem C02_transpose_reduce_axes_law :
   forall (A : Type) (reduce : list nat -> tensor A -> tensor A), reduce_laws A reduce ->
@@ -399,26 +398,27 @@ Theorem C02_transpose_reduce_action_sound :
   sem_transpose_spec A sem op_type ->
   forall reduce, reduce_laws A reduce ->
   forall denoteZ, (forall v v', teq v v' -> denoteZ v = denoteZ v') -> sem_reducemean_spec A sem op_type denoteZ reduce ->
-  forall mkZ : list Z -> tensor A, (forall l, denoteZ (mkZ l) = Some l) ->
-  forall g T2 a e ef, radm A sem denoteZ g e -> In T2 (rt_nodes g) -> decide_tr g T2 = Some a ->
+  forall mkZ : list Z -> tensor A, (forall l, denoteZ (mkZ l) = Some l) -> sem_constant_spec A sem mkZ ->
+  forall g T2 a e ef, radm A sem denoteZ g e -> tight A g e -> In T2 (rt_nodes g) -> decide_tr g T2 = Some a ->
     eval (tensor A) sem (rt_nodes g) e = Some ef ->
-    radm A sem denoteZ (apply_tr g a) (ext_env A mkZ g a e) /\
+    radm A sem denoteZ (apply_tr g a) e /\ tight A (apply_tr g a) e /\
     (forall o, run (tensor A) sem (rt_graph g) e = Some o ->
-       exists o', run (tensor A) sem (rt_graph (apply_tr g a)) (ext_env A mkZ g a e) = Some o' /\ Forall2 teq o o').
-Proof. exact transpose_reduce_action_sound. Qed.
+       exists o', run (tensor A) sem (rt_graph (apply_tr g a)) e = Some o' /\ Forall2 teq o o').
+Proof. exact transpose_reduce_step_sound. Qed.
 Print Assumptions C02_transpose_reduce_action_sound.
 
+(* the pass: PLAIN refinement (the re-mapped axes are defined by a Constant node of the rewritten graph: nothing is added to
+   the environment), for every graph admissible when the pass starts; [tight]: the names the environment defines are below
+   the graph's name counter (the created name is unused) *)
 Theorem C02_transpose_reduce_pass_sound :
   forall (A : Type) (sem : string -> list nat -> list (tensor A) -> option (list (tensor A))),
   (forall op ats vs vs' o, Forall2 teq vs vs' -> sem op ats vs = Some o -> exists o', sem op ats vs' = Some o' /\ Forall2 teq o o') ->
   sem_transpose_spec A sem op_type ->
   forall reduce, reduce_laws A reduce ->
   forall denoteZ, (forall v v', teq v v' -> denoteZ v = denoteZ v') -> sem_reducemean_spec A sem op_type denoteZ reduce ->
-  forall mkZ : list Z -> tensor A, (forall l, denoteZ (mkZ l) = Some l) ->
-  forall fuel g e, radm A sem denoteZ g e ->
-    forall o, run (tensor A) sem (rt_graph g) e = Some o ->
-    exists e' o', env_ext A denoteZ (tr_pass fuel g) e e' /\
-                  run (tensor A) sem (rt_graph (tr_pass fuel g)) e' = Some o' /\ Forall2 teq o o'.
+  forall mkZ : list Z -> tensor A, (forall l, denoteZ (mkZ l) = Some l) -> sem_constant_spec A sem mkZ ->
+  forall fuel g e, radm A sem denoteZ g e -> tight A g e ->
+    refines (tensor A) teq sem (rt_graph g) (rt_graph (tr_pass fuel g)) e.
 Proof. exact transpose_reduce_pass_sound. Qed.
 Print Assumptions C02_transpose_reduce_pass_sound.
 
@@ -460,15 +460,23 @@ Print Assumptions C02_broadcast_pointwise_restricts_to_pwn.
         propagate_elementwise_shapes_ir (PropagateShapes.v: the non-rewired _refresh_elementwise_output_shape on the nodes of
         ELEMENTWISE_BINARY_OPS; the declared broadcast is true by RefreshSound.broadcast_dims_bshape — the model of
         _broadcast_shape_dims never contradicts the GENERAL numpy broadcast of the run-time operands).
+        remove_dead_nodes_ir (DcePass.v: the library's RemoveUnusedNodesPass restricted to plain dead-code elimination, one
+        reverse sweep; the model is fail-closed — identity unless every node has exactly one output, i.e. nothing for the
+        library's optional-output trimming to do —, the same condition is a guard of the theorem).
         What remains a hypothesis, exactly:
           [unmodelled_ok U]  every function of UNMODELLED_RUNNERS (= the table minus the verified models, lemma
                              OptimizePipeline.unmodelled_exact) refines and keeps the graph admissible: name_fix, CSE,
-                             lift_constants_to_initializers, rewrite_mul_rsqrt_as_div, remove_dead_nodes — and remove_redundant_casts_ir (both entries): it
+                             lift_constants_to_initializers, rewrite_mul_rsqrt_as_div — and remove_redundant_casts_ir (both entries): it
                              IS verified, but over typed tensors (CastPass.v, ttensor/tteq); this theorem is over [tensor A]/teq,
                              and no embedding of ttensor into [tensor A] lets teq see the dtype of an EMPTY tensor;
           [refresh_ok]       the declared dims the two Transpose fold passes leave behind
                              (_refresh_elementwise_output_shape(rewired=True), not modelled by TransposePairPass.v) are true;
-          [kinds_ok_*]       boolean: every action of the Transpose-pair pass is of a proved kind (kinds_along);
+          [kinds_ok_*]       boolean: remove_dead_nodes meets a graph of single-output nodes (dce_guard); every action of the
+                             Transpose-pair pass is of a proved kind (kinds_along), and every fold
+                             of the Transpose-reduce pass has its axes as an ATTRIBUTE or none (axes_attr_along): with the axes
+                             as an input the pass now inserts a Constant node — proved for the pass on its own
+                             (C02_transpose_reduce_pass_sound, plain refinement) — but the common admissibility keeps constant
+                             payloads in the environment, and a constant defined by a node is outside it;
           [opt_world]        the union of the passes' semantic hypotheses (Transpose, Reshape, pointwise table operators with
                              numpy broadcasting, CastLike, abstract ReduceMean with the permute/re-map law, integer vectors). *)
 From J2O Require Import OptGraph OptimizePipeline.
